@@ -30,6 +30,8 @@ func hostSets(cfg *plugin.ClientConfig, sets string) {
 	case "v0":
 		cfg.ProtocolVersion = 0
 		cfg.Plugins = mk(0)
+	case "versioned02":
+		cfg.VersionedPlugins = map[int]plugin.PluginSet{0: mk(0), 2: mk(2)}
 	case "versioned8_10":
 		cfg.VersionedPlugins = map[int]plugin.PluginSet{8: mk(8), 10: mk(10)}
 	case "both123":
